@@ -217,8 +217,8 @@ func newRuleguardChecker(info *linter.CheckerInfo, ctx *linter.CheckerContext) (
 		filenames, err := filepath.Glob(strings.TrimSpace(filePattern))
 		if err != nil {
 			// The only possible returned error is ErrBadPattern, when pattern is malformed.
-			log.Printf("ruleguard init error: %+v", err)
-			continue
+			// Such a pattern matches no file, which is always an error.
+			return nil, fmt.Errorf("ruleguard init error: %+v: '%s'", err, strings.TrimSpace(filePattern))
 		}
 		if len(filenames) == 0 {
 			return nil, fmt.Errorf("ruleguard init error: no file matching '%s'", strings.TrimSpace(filePattern))
